@@ -124,9 +124,15 @@ func (g *G) someID() string {
 	case 6:
 		return gitfmt.HashObject("blob", []byte("absent"))
 	default:
-		ids := make([]string, 0)
+		// a commit (named symbolically: its id depends on the clock) or a content-addressed blob / tree
+		if len(g.E.H.Order) > 0 && g.Bool("commitId") {
+			return fmt.Sprintf("@commit#%d", g.Int(0, len(g.E.H.Order)-1, "commitIdx"))
+		}
+		var ids []string
 		for id := range g.E.Cur.Objects {
-			ids = append(ids, id)
+			if o, err := gitfmt.ReadObject(g.E.Cur.Store, id); err == nil && o.Kind != "commit" {
+				ids = append(ids, id)
+			}
 		}
 		if len(ids) == 0 {
 			return strings.Repeat("b", 40)
@@ -319,7 +325,7 @@ func genCommandLine(g *G) Step {
 		default:
 			id := g.someID()
 			st := goit("cat-file", g.Pick([]string{"-p", "-t"}, "flag"), id)
-			if !gitfmt.IsHex40(id) {
+			if !gitfmt.IsHex40(id) && !strings.HasPrefix(id, "@commit#") {
 				st.Note = "invalid"
 			}
 			if id == "" {
